@@ -23,10 +23,14 @@ XTok(X, i) == IF i < Len(X.toks) THEN X.toks[i + 1] ELSE ""
 XSpan(X, i, j) == <<X.offs[i + 1], X.offs[j + 1]>>
 
 (* a failure event: expected-found error at token position pos *)
+(* rd: the reading under which the event counts -- "any", or "start"/"end" for a semantic     *)
+(* rejection, whose position (start or end of the rejected match) the statement leaves open  *)
 EvEF(X, pos, exp, found, i, j) ==
-  LET sp == XSpan(X, i, j) IN [pos |-> pos, err |-> MkErr(sp[1], sp[2], found, exp, "", <<>>)]
+  LET sp == XSpan(X, i, j) IN [pos |-> pos, rd |-> "any", err |-> MkErr(sp[1], sp[2], found, exp, "", <<>>)]
 EvUser(X, pos, i, j, msg) ==
-  LET sp == XSpan(X, i, j) IN [pos |-> pos, err |-> MkErr(sp[1], sp[2], "", {}, msg, <<>>)]
+  LET sp == XSpan(X, i, j) IN [pos |-> pos, rd |-> "any", err |-> MkErr(sp[1], sp[2], "", {}, msg, <<>>)]
+EvUserRd(X, pos, rd, i, j, msg) ==
+  LET sp == XSpan(X, i, j) IN [pos |-> pos, rd |-> rd, err |-> MkErr(sp[1], sp[2], "", {}, msg, <<>>)]
 (* failure of a single-token matcher at p *)
 EvTok(X, p, exp) == EvEF(X, p, exp, XTok(X, p), p, IF XTok(X, p) = "" THEN p ELSE p + 1)
 
@@ -207,7 +211,8 @@ D(g, X, p, c, env) ==
          \* located at the start of the rejected match, so that span start, position and found agree
          ELSE Fail(un.fl \cup {EvEF(X, p, {"else"}, XTok(X, p), p, un.end)})
     [] o = "trymap" ->
-         IF ~un.ok \/ Pred(g[3], un.val) THEN un ELSE Fail(un.fl \cup {EvUser(X, p, p, un.end, "tm")})
+         IF ~un.ok \/ Pred(g[3], un.val) THEN un
+         ELSE Fail(un.fl \cup {EvUserRd(X, p, "start", p, un.end, "tm"), EvUserRd(X, un.end, "end", p, un.end, "tm")})
     [] o = "trymapw" ->
          IF ~un.ok \/ Pred(g[3], un.val) THEN un ELSE Fail(un.fl \cup {EvUser(X, un.end, p, un.end, "tw")})
     [] o = "validate" ->
